@@ -176,6 +176,11 @@ func check(c *pbt.Case, r *pbt.R) {
 		r.NonTrivial()
 	}
 	r.St.CountN("hops", k)
+	for _, n := range c.Spec.Nodes() {
+		if n.K == "mark" && len(n.X[0].S) > 0 && n.X[0].S[0] == "" {
+			r.Count("features", "Mark reference with the empty message")
+		}
+	}
 	r.St.CountN("unknowing hops", unknowing)
 	r.St.CountN("references per case", len(refs))
 	for kind := range c.Spec.Kinds() {
